@@ -112,6 +112,7 @@ fn run_check(prop: &str, tier: Tier) -> i32 {
             check.parts.extend(engines::cluster::run(p, tier));
             if p == "C04" {
                 check.parts.extend(engines::kv::run("C04", tier, std::time::Instant::now()).into_iter().take(1));
+                check.parts.extend(engines::catchup::run_for("C04", tier, std::time::Instant::now()));
             }
             check.parts.extend(engines::pair::run(p, tier, std::time::Instant::now()));
             if p == "C01" {
